@@ -815,7 +815,7 @@ BOUNDS = {
                 dict(Shapes={0, 1}, NFields={2}, Rots={6}, MaxDepth=2, Names1=2, NamesN=2, LeanFrom=2, Forms1={"list"})],
         seeded=1500),
     "thorough": dict(
-        single=dict(Shapes={0, 1, 2}, NFields={1, 2, 3, 4}, Rots=set(range(12)) | {12, 14, 16, 18, 20, 22}, MaxDepth=1, Names1=3, NamesN=1, LeanFrom=1,
+        single=dict(Shapes={0, 1, 2}, NFields={1, 2, 3, 4}, Rots=set(range(24)), MaxDepth=1, Names1=3, NamesN=1, LeanFrom=1,
                     Forms1={"list", "tuple", "ndarray", "scalar"}),
         chains=[dict(Shapes={s}, NFields={nf}, Rots={r}, MaxDepth=3, Names1=1, NamesN=1, LeanFrom=3, Forms1={"list"})
                 for s, nf, r in ((0, 2, 1), (1, 3, 6), (2, 2, 12), (2, 3, 4), (0, 3, 19), (1, 2, 7))] +
